@@ -68,9 +68,10 @@ def oracle(ops, records, listener, armed_before):
             f0[3] == "1" and f0[2] == "0" and before["transaction"] == "N" and before["nested"] == "N" and before["ctx"] == "N"
         )
         if reconnectable and tok[0] in EXEC and armed_before[i] == 0:
-            if res not in ("ok", "IE"):
+            allowed = ("ok", "IE", "DISC") if listener == "force" else ("ok", "IE")  # a reclassifying listener turns the IntegrityError into a disconnect
+            if res not in allowed:
                 return ("c27-oracle", i, "step %d (%s) raised %s although the invalidated Connection has no transaction: it should reconnect transparently" % (i, tok, res))
-            if o["rid"] == "x" or f1[3] == "1":
+            if res != "DISC" and (o["rid"] == "x" or f1[3] == "1"):
                 return ("c27-oracle", i, "step %d (%s) did not leave the Connection reconnected" % (i, tok))
         # (e) errors not classified as disconnects leave the pool untouched
         if res in ("OE", "IE") and held0 != "x" and f0[2] == "0":
